@@ -1011,3 +1011,227 @@ def c08_programs(tier, sd):
             out.append({"tag": "tree", "desc": "s1 rand=%s s2 rand=%s list rand=%s constraints %s" % (r1, r2, rl, cs), "prog": pr,
                         "world": [["top", "obj", "Top"], ["other", "obj", "Top"]], "ops": ops})
     return out
+
+
+# ------------------------------------------------------------------------------------------ C14 inferred bounds
+def c14_programs(tier, sd):
+    rnd = random.Random(sd)
+    out = []
+    a, b, c, n1, n2 = F("a"), F("b"), F("c"), F("n1"), F("n2")
+    fields = [fld("a", ("u", 8)), fld("b", ("u", 8)), fld("c", ("s", 8)), fld("n1", ("u", 8), False), fld("n2", ("u", 8), False),
+              fld("s1", ("s", 8), False), fld("w", ("u", 16))]
+    nvals = [{"n1": 0, "n2": 0, "s1": 0}, {"n1": 1, "n2": 255, "s1": -1}, {"n1": 200, "n2": 100, "s1": -128}, {"n1": 100, "n2": 200, "s1": 127},
+             {"n1": 255, "n2": 1, "s1": 5}, {"n1": 128, "n2": 128, "s1": -100}]
+    rel = ["<", "<=", ">", ">=", "=="]
+    stmts = []
+    for op in rel:
+        stmts.append([E([op, a, n1])])
+        stmts.append([E([op, n1, a])])
+        stmts.append([E([op, a, ["+", n1, n2]])])
+        stmts.append([E([op, a, ["-", n1, n2]])])
+        stmts.append([E([op, ["+", n1, n2], a])])
+        stmts.append([E([op, a, ["+", n1, lit(1)]])])
+        stmts.append([E([op, a, lit(100)])])
+        stmts.append([E([op, a, lit(-1)])])
+        stmts.append([E([op, a, lit(300)])])
+        stmts.append([E([op, c, lit(-5)])])
+        stmts.append([E([op, c, F("s1")])])
+        stmts.append([E([op, c, n1])])                     # signed field against unsigned non-random
+        stmts.append([E([op, a, F("s1")])])                # unsigned field against signed non-random
+        stmts.append([E([op, a, b])])
+        stmts.append([E([op, a, b]), E(["<", b, n1])])
+        stmts.append([E([op, a, b]), E([">", b, lit(200)]), E(["<", a, lit(250)])])
+        stmts.append([E([op, F("w"), ["*", n1, n2]])])
+        stmts.append([E([op, F("w"), ["+", n1, n2]])])
+        stmts.append([E([op, a, ["+", b, n1]])])           # mixes random and non-random below the comparison
+        stmts.append([E([op, ["+", a, n1], b])])
+        stmts.append([E([op, a, ["&", n1, lit(15)]])])
+        stmts.append([E([op, a, ["ps", n1, 7, 4]])])
+    stmts += [
+        [E(["<", a, b]), E(["<", b, F("w")]), E(["<", F("w"), lit(5)])],
+        [E([">", a, b]), E([">", b, n1])],
+        [E(["in", a, [["rng", lit(0), lit(10)], ["rng", lit(2), lit(3)]]])],
+        [E(["in", a, [["rng", lit(2), lit(3)], ["rng", lit(0), lit(10)], lit(50)]])],
+        [E(["in", a, [["rng", lit(0), lit(4)], ["rng", lit(5), lit(9)], ["rng", lit(20), lit(22)]]]), E([">", a, lit(3)])],
+        [E(["in", a, [["rng", lit(9), lit(2)], lit(7)]])],
+        [E(["in", a, [["rng", n1, n2], lit(3)]])],
+        [E(["in", a, [lit(1), lit(5), lit(200)]]), E(["<", a, n1])],
+        [E(["in", c, [["rng", lit(-3), lit(3)], lit(100)]]), E(["!=", c, lit(0)])],
+        [E(["in", c, [["rng", lit(200), lit(210)], lit(-1)]])],
+        [E(["notin", a, [["rng", lit(0), lit(100)]]])],
+        [E(["in", a, [["rng", lit(0), lit(10)]]]), E(["in", a, [["rng", lit(5), lit(20)]]])],
+        [["if", [[["<", b, lit(10)], [E(["<", a, lit(5)])]]], [E([">", a, lit(200)])]]],
+        [["implies", [">", b, lit(10)], [E(["==", a, lit(5)])]], E(["<", a, lit(100)])],
+        [E(["|", ["<", a, lit(5)], [">", a, lit(250)]])],
+        [E(["&", ["<", a, lit(50)], [">", a, lit(5)]])],
+        [E(["<", ["+", a, lit(1)], lit(5)])],
+        [E(["==", ["+", a, b], ["ulit", 10, 8]])],
+        [E(["<", ["ps", a, 7, 4], ["ulit", 3, 4]])],
+        [],
+    ]
+    prev = [{}, {"a": 0, "b": 255, "c": -128}, {"a": 255, "b": 0, "c": 127}, {"a": 77, "b": 77, "c": -1}]
+    t = types_of(fields)
+    for st in stmts:
+        if not all(in_F(s[1], t) for s in st if s[0] == "e"):
+            continue
+        pr = one_class(fields, st)
+        ops = []
+        for i, nv in enumerate(nvals if tier == "thorough" else nvals[:4]):
+            for n, v in nv.items():
+                ops.append(["set", ["top", n], v])
+            for n, v in prev[i % len(prev)].items():
+                ops.append(["set", ["top", n], v])
+            ops.append(["randomize", ["top"]])
+        ops.append(["randomize_with", ["top"], [E(["<", a, lit(128)])]])
+        out.append({"tag": "bounds", "desc": "bounds %s" % (st,), "prog": pr, "world": [["top", "obj", "Top"]], "ops": ops})
+    # disabled blocks must not narrow; enum fields
+    pr = one_class(fields, [E(["<", a, lit(5)])], extra_blocks=[["cb1", "c", [E([">", b, lit(250)]), E(["<", c, lit(0)])]]])
+    out.append({"tag": "bounds_cmode", "desc": "disabled block does not narrow", "prog": pr, "world": [["top", "obj", "Top"]],
+                "ops": [["randomize", ["top"]], ["cmode", ["top"], "cb1", False], ["randomize", ["top"]], ["cmode", ["top"], "cb0", False], ["randomize", ["top"]],
+                        ["cmode", ["top"], "cb1", True], ["randomize", ["top"]]]})
+    ef = [["e", "enum", "E4", True], ["g", "enum", "E3", True], fld("a", ("u", 8))]
+    for st in ([], [E(["!=", F("e"), ["enum", "E4", "P"]])], [E(["in", F("e"), [["enum", "E4", "Q"], ["enum", "E4", "S"]]])],
+               [E([">", F("e"), ["enum", "E4", "Q"]])], [E(["==", F("a"), lit(3)])]):
+        out.append({"tag": "bounds_enum", "desc": "enum bounds %s" % (st,), "prog": one_class(ef, st, ENUMS), "world": [["top", "obj", "Top"]],
+                    "ops": [["randomize", ["top"]], ["randomize", ["top"]]]})
+    return out + [dict(p, tag="stmt:" + p["tag"]) for p in statement_programs(tier, rnd) if p["tag"] in ("in", "in_rl", "ifelse", "bool", "unique")][::(1 if tier == "thorough" else 3)]
+
+
+# ------------------------------------------------------------------------------------------ C16 fault points
+def c16_programs(tier, sd):
+    rnd = random.Random(sd)
+    out = []
+    a, b = F("a"), F("b")
+    Probe = {"name": "Probe", "fields": [fld("a", ("u", 4)), fld("b", ("u", 8)), fld("ff", ("u", 4), False), ["l", "list", ["u", 8], 3, True, False]],
+             "blocks": [["pb", "c", [E(["<", a, lit(8)]), E(["<", b, ["+", a, lit(3)]]), ["order", [["a"]], [["b"]]],
+                                     ["foreach", ["l"], "i", [E([">", ["it", "i"], ["idx", "i"]]), E(["<", ["it", "i"], lit(50)])]],
+                                     ["dist", F("l", 0), [[lit(5), 1], [["rng", lit(10), lit(12)], 2], [lit(40), 0]]]]]],
+             "pre_randomize": [["raise_if", ["ff"], 1]], "post_randomize": [["raise_if", ["ff"], 2]]}
+    body = [E(["<", a, lit(5)]), ["if", [[[">", b, lit(3)], [E(["==", a, lit(1)])]]], None], ["foreach", ["l"], "i", [E(["<", ["it", "i"], lit(9)])]]]
+    bads = []
+    for k in range(4):
+        st = list(body)
+        st.insert(k, ["raise", "block@%d" % k])
+        bads.append({"name": "Bad%d" % k, "fields": [fld("a", ("u", 8)), fld("b", ("u", 8)), ["l", "list", ["u", 8], 2, True, False]],
+                     "blocks": [["ba", "c", [E(["<", a, b])]], ["bz", "c", st]]})
+    # raise nested inside an if_then / foreach body, raise inside a dynamic block, raise in the constructor
+    bads.append({"name": "Bad4", "fields": [fld("a", ("u", 8)), fld("b", ("u", 8)), ["l", "list", ["u", 8], 2, True, False]],
+                 "blocks": [["bz", "c", [["if", [[[">", b, lit(3)], [E(["==", a, lit(1)]), ["raise", "in-if"]]]], None]]]]})
+    bads.append({"name": "Bad5", "fields": [fld("a", ("u", 8)), fld("b", ("u", 8)), ["l", "list", ["u", 8], 2, True, False]],
+                 "blocks": [["bz", "c", [["foreach", ["l"], "i", [E(["<", ["it", "i"], lit(9)]), ["raise", "in-foreach"]]]]]]})
+    bads.append({"name": "Bad6", "fields": [fld("a", ("u", 8)), fld("b", ("u", 8))],
+                 "blocks": [["ba", "c", [E(["<", a, b])]], ["bd", "dyn", [E(["<", a, lit(3)]), ["raise", "in-dynamic"]]]]})
+    bads.append({"name": "Bad7", "fields": [fld("a", ("u", 8)), fld("b", ("u", 8))], "blocks": [["ba", "c", [E(["<", a, b])]]], "ctor_raise": True})
+    Outer = {"name": "Outer", "fields": [["s", "obj", "Probe", True], fld("k", ("u", 8))], "blocks": [["ob", "c", [E(["<", F("k"), F("s", "b")])]]]}
+    pr = {"enums": {}, "classes": [Probe] + bads + [Outer]}
+    tail = [["randomize", ["p"]], ["new", ["p2", "obj", "Probe"]], ["randomize", ["p2"]], ["randomize_with", ["p2"], [E(["==", a, lit(2)])]],
+            ["new", ["o", "obj", "Outer"]], ["randomize", ["o"]]]
+    for bd in bads:
+        out.append({"tag": "fault_ctor", "desc": "user exception while constructing %s, then further use" % bd["name"], "prog": pr,
+                    "world": [["p", "obj", "Probe"]], "ops": [["randomize", ["p"]], ["new_fault", ["x", "obj", bd["name"]]]] + tail})
+        out.append({"tag": "fault_ctor", "desc": "user exception while constructing %s first" % bd["name"], "prog": pr,
+                    "world": [], "ops": [["new_fault", ["x", "obj", bd["name"]]], ["new", ["p", "obj", "Probe"]]] + tail})
+    inl = [E(["<", a, lit(6)]), ["if", [[[">", b, lit(1)], [E(["!=", a, lit(0)])]]], None], ["foreach", ["l"], "i", [E(["<", ["it", "i"], lit(30)])]], E([">", b, lit(0)])]
+    for k in range(len(inl) + 1):
+        st = list(inl)
+        st.insert(k, ["raise", "inline@%d" % k])
+        out.append({"tag": "fault_inline", "desc": "user exception at position %d of a randomize_with body" % k, "prog": pr,
+                    "world": [["p", "obj", "Probe"]], "ops": [["randomize", ["p"]], ["randomize_with", ["p"], st]] + tail})
+    out.append({"tag": "fault_inline", "desc": "user exception nested in if_then inside randomize_with", "prog": pr, "world": [["p", "obj", "Probe"]],
+                "ops": [["randomize_with", ["p"], [["if", [[[">", b, lit(1)], [E(["!=", a, lit(0)]), ["raise", "nested"]]]], None]]]] + tail})
+    out.append({"tag": "fault_inline", "desc": "user exception in free-standing randomize_with", "prog": pr, "world": [["p", "obj", "Probe"]],
+                "ops": [["vsc_randomize_with", [["p"]], [E(["<", F("p", "a"), lit(3)]), ["raise", "free"]]]] + tail})
+    for ffv, which in ((1, "pre_randomize"), (2, "post_randomize")):
+        out.append({"tag": "fault_hook", "desc": "user exception in %s" % which, "prog": pr, "world": [["p", "obj", "Probe"]],
+                    "ops": [["randomize", ["p"]], ["set", ["p", "ff"], ffv], ["randomize", ["p"]], ["randomize_with", ["p"], [E(["<", a, lit(3)])]],
+                            ["set", ["p", "ff"], 0]] + tail})
+        out.append({"tag": "fault_hook", "desc": "user exception in %s of a sub-object" % which, "prog": pr, "world": [["o", "obj", "Outer"], ["p", "obj", "Probe"]],
+                    "ops": [["randomize", ["o"]], ["set", ["o", "s", "ff"], ffv], ["randomize", ["o"]], ["vsc_randomize", [["o"]]], ["set", ["o", "s", "ff"], 0],
+                            ["randomize", ["o"]]] + tail[:4]})
+    unsat = [E(["==", a, lit(1)]), E(["==", a, lit(2)])]
+    out.append({"tag": "fault_unsat", "desc": "unsatisfiable calls interleaved", "prog": pr, "world": [["p", "obj", "Probe"]],
+                "ops": [["randomize_with", ["p"], unsat], ["randomize", ["p"]], ["randomize_with", ["p"], unsat], ["list_append", ["p", "l"], 0],
+                        ["randomize_with", ["p"], unsat], ["randomize", ["p"]]] + tail})
+    # failing calls on objects whose constraints reach fields only through dynamic blocks of list elements (solver handles!)
+    out += [dict(p, tag="fault_" + p["tag"]) for p in c06_programs(tier, sd) if p["tag"] == "inline_fail"]
+    # seeded mixtures
+    faults = [["new_fault", ["x", "obj", "Bad%d" % k]] for k in range(8)] + \
+             [["randomize_with", ["p"], unsat], ["randomize_with", ["p"], [E(["<", a, lit(6)]), ["raise", "s"]]],
+              ["seq", [["set", ["p", "ff"], 1], ["randomize", ["p"]], ["set", ["p", "ff"], 0]]],
+              ["seq", [["set", ["p", "ff"], 2], ["randomize", ["p"]], ["set", ["p", "ff"], 0]]]]
+    for i in range(25 if tier == "quick" else 300):
+        ops = []
+        for _ in range(rnd.randint(2, 5)):
+            f = rnd.choice(faults)
+            ops.extend(f[1] if f[0] == "seq" else [f])
+            if rnd.random() < 0.5:
+                ops.append(rnd.choice([["randomize", ["p"]], ["randomize_with", ["p"], [E([">", b, lit(1)])]], ["list_append", ["p", "l"], 0]]))
+        out.append({"tag": "fault_seeded", "desc": "seeded fault history #%d" % i, "prog": pr, "world": [["p", "obj", "Probe"]], "ops": ops + tail})
+    return out
+
+
+# ------------------------------------------------------------------------------------------ C17 pre/post randomize
+def c17_programs(tier, sd):
+    rnd = random.Random(sd)
+    out = []
+    Leaf = {"name": "Leaf", "fields": [fld("p", ("u", 8)), fld("n", ("u", 8), False)], "blocks": [["lb", "c", [E(["<", F("p"), F("n")])]]],
+            "pre_randomize": [["set", ["n"], 40]], "post_randomize": []}
+    Sub = {"name": "Sub", "fields": [fld("x", ("u", 8)), fld("m", ("u", 8), False), ["inner", "obj", "Leaf", True], ["kid", "obj", "Leaf", False]],
+           "blocks": [["sb", "c", [E([">", F("x"), F("m")]), E(["!=", F("x"), F("inner", "p")])]]],
+           "pre_randomize": [["set", ["m"], 200]], "post_randomize": []}
+    for r1, r2, rl in itertools.product((True, False), repeat=3):
+        Top = {"name": "Top", "fields": [fld("a", ("u", 8)), fld("t", ("u", 8), False), ["s1", "obj", "Sub", r1], ["s2", "obj", "Sub", r2],
+                                         ["l", "list", ["obj", "Leaf"], 2, rl, False]],
+               "blocks": [["tb", "c", [E(["==", F("a"), ["+", F("t"), lit(1)]]), E(["<", F("s1", "x"), lit(250)])]]],
+               "pre_randomize": [["set", ["t"], 77]], "post_randomize": []}
+        pr = {"enums": {}, "classes": [Leaf, Sub, Top]}
+        ops = [["set", ["top", "t"], 5], ["set", ["top", "s1", "m"], 1], ["set", ["top", "s2", "m"], 2], ["set", ["top", "s1", "inner", "n"], 3],
+               ["set", ["top", "s2", "kid", "n"], 9], ["set", ["top", "l", 0, "n"], 250],
+               ["randomize", ["top"]], ["set", ["top", "t"], 6], ["set", ["top", "s1", "m"], 9],
+               ["randomize_with", ["top"], [E(["<", F("a"), lit(200)])]], ["vsc_randomize", [["top"]]], ["vsc_randomize", [["top", "s1"]]],
+               ["vsc_randomize", [["top", "s2", "kid"]]], ["vsc_randomize", [["top", "l", 1]]], ["vsc_randomize", [["top", "s1"], ["top", "l", 0]]],
+               ["randomize_with", ["top"], [E(["==", F("a"), lit(1)]), E(["==", F("a"), lit(2)])]], ["randomize", ["top"]]]
+        out.append({"tag": "hooks", "desc": "tree s1 rand=%s s2 rand=%s list rand=%s" % (r1, r2, rl), "prog": pr,
+                    "world": [["top", "obj", "Top"], ["other", "obj", "Top"]], "ops": ops})
+    return out
+
+
+# ------------------------------------------------------------------------------------------ C20 solve_order
+def c20_programs(tier, sd):
+    rnd = random.Random(sd)
+    out = []
+    a, b, c = F("a"), F("b"), F("c")
+    def O(x, y):
+        return ["order", [[p] for p in x], [[p] for p in y]]
+    f1 = [fld("a", ("u", 1)), fld("b", ("u", 4)), fld("c", ("u", 4)), fld("n", ("u", 4), False)]
+    f2 = [fld("a", ("u", 3)), fld("b", ("u", 4)), fld("c", ("s", 4)), fld("n", ("u", 4), False)]
+    bodies = [
+        (f1, [["if", [[["==", a, lit(0)], [E(["==", b, lit(1)])]]], None], O(["a"], ["b"])]),
+        (f1, [["if", [[["==", a, lit(0)], [E(["==", b, lit(1)])]]], [E(["<", b, lit(15)])]], O(["a"], ["b"])]),
+        (f1, [["implies", ["==", a, lit(1)], [E(["==", b, c])]], O(["a"], ["b", "c"])]),
+        (f2, [E(["<", a, b]), O(["a"], ["b"])]),
+        (f2, [E(["<", a, b]), O(["b"], ["a"])]),
+        (f2, [E(["<", a, b]), E(["<", b, lit(12)]), E([">", c, lit(-3)]), E(["!=", c, lit(0)]), O(["a"], ["b"]), O(["b"], ["c"]), E(["<", c, b])]),     # chain a -> b -> c
+        (f2, [E(["==", ["+", a, b], ["ulit", 9, 4]]), O(["a"], ["b"])]),
+        (f2, [E(["<=", a, F("n")]), E(["<", a, b]), O(["a"], ["b"])]),
+        (f2, [E(["in", a, [lit(1), lit(5), lit(6)]]), ["if", [[["==", a, lit(5)], [E(["==", b, lit(0)])]]], None], O(["a"], ["b"])]),
+        (f2, [E(["<", a, b]), E(["<", b, lit(3)]), O(["a"], ["b"])]),                                   # a in {0,1}: most of a's range infeasible
+        (f2, [["unique", [a, b]], E(["<", b, lit(8)]), O(["a"], ["b"])]),
+        (f2, [E(["<", a, b]), O(["a", "c"], ["b"]), E(["==", c, ["slit", -2, 4]])]),
+    ]
+    for fields, body in bodies:
+        pr = one_class(fields, body)
+        ops = []
+        for nv in (0, 3, 7):
+            ops += [["set", ["top", "n"], nv], ["randomize", ["top"]], ["randomize_with", ["top"], [E(["!=", b, lit(2)])]]]
+        ops += [["vsc_randomize", [["top"]]]]
+        out.append({"tag": "order", "desc": "solve_order %s" % (body,), "prog": pr, "world": [["top", "obj", "Top"]], "ops": ops})
+    # ordering over list elements / list before scalar
+    lf = [["l", "list", ["u", 3], 2, True, False], fld("b", ("u", 4)), fld("a", ("u", 2))]
+    body = [["foreach", ["l"], "i", [E(["<", ["it", "i"], b])]], ["order", [["l"]], [["b"]]], E(["<", a, F("l", 0)]), ["order", [["a"]], [["l"]]]]
+    out.append({"tag": "order_list", "desc": "order a -> list -> b", "prog": one_class(lf, body), "world": [["top", "obj", "Top"]],
+                "ops": [["randomize", ["top"]], ["randomize", ["top"]]]})
+    # an unsatisfiable system with ordering
+    out.append({"tag": "order", "desc": "ordered but unsatisfiable", "prog": one_class(f2, [E(["<", a, b]), E(["<", b, a]), O(["a"], ["b"])]),
+                "world": [["top", "obj", "Top"]], "ops": [["randomize", ["top"]]]})
+    return out
